@@ -139,6 +139,7 @@ pub fn check_core(
         info.nontrivial = !succ_idx.is_empty() && succ_idx.len() < success.len();
     }
     info.class_if(cfg.invert, "invert");
+    info.class_if(cfg.warm.is_some(), "searcher_reused_after_another_input");
     info.class_if(cfg.passthru, "passthru");
     info.class_if(exp.stopped_at.is_some(), "stopped_on_nonmatch");
     info.class_if(out.data_reads >= 3, "reader_refilled>=2");
@@ -151,6 +152,13 @@ pub fn check(case: &Case) -> Verdict {
     let input = input_of(&case.lines, case.final_term, case.cfg.term);
     let matcher = build_x(case.matcher, case.cfg.term);
     let mut searcher = sea::build_searcher(&case.cfg, &case.strat);
+    if let Some(w) = &case.cfg.warm {
+        // an earlier search on the same searcher
+        let _ = match &matcher {
+            XAny::Regex(m) => sea::run_with(&mut searcher, m, &case.strat, &w.0, None, None),
+            XAny::X(m) => sea::run_with(&mut searcher, m, &case.strat, &w.0, None, None),
+        };
+    }
     match check_core(&mut searcher, &matcher, &case.cfg, &case.strat, &input) {
         Ok(info) => Verdict::Pass(info),
         Err(f) => Verdict::Fail(f),
@@ -323,6 +331,7 @@ pub fn gen_case(t: &mut Tape) -> Case {
         passthru,
         line_number: !t.chance(1, 5),
         stop_on_nonmatch: t.chance(1, 6),
+        warm: crate::gen::gen_warm(t, term),
         ..SCfg::default()
     };
     let n = if t.chance(1, 5) { t.below(201) } else { t.below(25) };
